@@ -227,6 +227,8 @@ pub struct ChildSpec<'a> {
     pub stdout_to: Option<PathBuf>,
     /// the child's standard input is this file, opened for reading (instead of a pipe)
     pub stdin_file: Option<PathBuf>,
+    /// send the child's stderr to this file (e.g. a full device) instead of capturing it
+    pub stderr_to: Option<PathBuf>,
 }
 
 pub fn run_child(env: &WorkerEnv, bin: &str, spec: ChildSpec) -> Result<ChildResult, String> {
@@ -258,6 +260,10 @@ pub fn run_child(env: &WorkerEnv, bin: &str, spec: ChildSpec) -> Result<ChildRes
         let f = std::fs::OpenOptions::new().write(true).open(p).map_err(|e| format!("open {}: {e}", p.display()))?;
         cmd.stdout(Stdio::from(f));
     }
+    if let Some(p) = &spec.stderr_to {
+        let f = std::fs::OpenOptions::new().write(true).open(p).map_err(|e| format!("open {}: {e}", p.display()))?;
+        cmd.stderr(Stdio::from(f));
+    }
     if let Some(p) = &spec.stdin_file {
         let f = std::fs::File::open(p).map_err(|e| format!("open {}: {e}", p.display()))?;
         cmd.stdin(Stdio::from(f));
@@ -273,7 +279,7 @@ pub fn run_child(env: &WorkerEnv, bin: &str, spec: ChildSpec) -> Result<ChildRes
         // stdin dropped here => EOF
     });
     let out = child.stdout.take();
-    let mut err = child.stderr.take().unwrap();
+    let err = child.stderr.take();
     let t_out = std::thread::spawn(move || {
         let mut b = Vec::new();
         if let Some(mut out) = out {
@@ -283,7 +289,9 @@ pub fn run_child(env: &WorkerEnv, bin: &str, spec: ChildSpec) -> Result<ChildRes
     });
     let t_err = std::thread::spawn(move || {
         let mut b = Vec::new();
-        let _ = err.read_to_end(&mut b);
+        if let Some(mut err) = err {
+            let _ = err.read_to_end(&mut b);
+        }
         b
     });
     let start = Instant::now();
